@@ -16,7 +16,15 @@ the multiset of data rows; the multiset of (row, basis-row) pairs equals that of
 batches, all of b rows except the last with N - b(ceil(N/b)-1) in 1..b; every negative row is a data row
 (a row whose basis is all Z when bases are given); negative batches have neg_batch_size rows, except that
 in the mirror case (no bases, equal sizes) the tail may be as short as the positive tail (DESIGN 6(a));
-caller's objects byte-identical after fit."""
+caller's objects byte-identical after fit.  The clause "negative-phase chains are STARTED from ..." is decided
+on the actual chain start: rbm_am.gibbs_steps / sample_h_given_v are wrapped too, and when a chain start is
+observable inside a compute_batch_gradients call (k >= 1) its rows must be the recorded neg_batch rows, by value
+(no demand when no chain is observable).
+
+Histories: fit is also called TWICE on one state - with another data object, and with the SAME array / tensor /
+list / bases object refilled in place between the calls; the second call is judged against the data as it is at
+that call (stale caches of the converted data or of z_samples).  Large data sets (N = 20011 / 150001, batch 4096
+or the default 100, each sample row a function of its basis row) are oracle-only (no model call above N = 50)."""
 import copy, inspect, itertools, time
 from collections import Counter
 import numpy as np
@@ -27,7 +35,9 @@ RULE = ("all (N, pos_batch_size) with 1 <= N <= 7 (quick) / 9 (thorough), 1 <= p
         "list rotating (thorough: all three forms, two independent data draws); 2 (quick) / 3 (thorough) epochs; rows drawn from a strict "
         "subset of {0,1}^3 with a duplicate row forced; with bases the all-Z rows and the other rows use "
         "disjoint sample rows. A case is one fit run; non-trivial := N >= 3, >= 2 batches, >= 2 distinct rows "
-        "and a duplicated row present")
+        "and a duplicated row present. Always first: two-fit histories on one state (other object / same data and-or bases "
+        "object refilled in place) and large oracle-only runs (N = 20011, 150001; batch 4096 / default 100); histories also "
+        "in the random stream; k in {1,2,3}; chain starts observed through rbm_am.gibbs_steps / sample_h_given_v")
 ASSUMPTIONS = ["torch.randperm(N) returns a permutation of 0..N-1 and torch.randint(M, size=(k,)) returns k indices < M "
                "(checked on every captured call)",
                "clause 'training never modifies the caller's data or bases' is correspondence-tested only (byte comparison "
@@ -85,7 +95,34 @@ def gen_case(ctx, kind, N, pos_bs, negmode, form, epochs):
         neg_arg = int(choices[int(rng.integers(0, len(choices)))])
     return {"kind": kind, "N": N, "pos_bs": pos_bs, "negmode": negmode, "neg_arg": neg_arg, "form": form,
             "epochs": epochs, "rows": [list(r) for r in rows], "bases": bases,
-            "nh": int(rng.integers(1, 3)), "tseed": int(rng.integers(0, 2 ** 31 - 1))}
+            "nh": int(rng.integers(1, 3)), "tseed": int(rng.integers(0, 2 ** 31 - 1)),
+            "k": int(rng.choice([1, 1, 2, 3]))}
+
+
+def large_case(ctx, kind, N, pos_bs, neg_arg, form, pos_default=False, stub=False):
+    """Oracle-only large run; rows are generated from a recipe (kept out of the evidence / replay files).
+    With bases every sample row is a function of its basis row (x_j = 1 iff basis_j == 'Z'), so a row handed
+    over with a foreign basis row is visible although the data are full of duplicates."""
+    return {"kind": kind, "N": N, "pos_bs": 100 if pos_default else pos_bs, "pos_default": pos_default,
+            "negmode": "default" if neg_arg is None else "diff", "neg_arg": neg_arg, "neg_omitted": neg_arg is None,
+            "form": form, "epochs": 1, "nh": 2, "k": 1, "stub_grad": stub,
+            "tseed": int(ctx.rng.integers(0, 2 ** 31 - 1)),
+            "recipe": {"seed": int(ctx.rng.integers(0, 2 ** 31 - 1)), "N": N, "with_bases": kind != "positive"}}
+
+
+def case_rows(case):
+    """(rows, bases) of a case: stored, or regenerated from its recipe."""
+    if "recipe" not in case:
+        return [list(r) for r in case["rows"]], case["bases"]
+    rc = case["recipe"]
+    g = np.random.default_rng(rc["seed"])
+    if rc["with_bases"]:
+        b = g.choice(np.array(list("XYZ")), size=(rc["N"], NV), p=[0.1, 0.1, 0.8])
+        b[0, :] = "Z"                                           # at least one reference-basis row
+        rows = (b == "Z").astype(float).tolist()
+        return rows, ["".join(r) for r in b.tolist()]
+    allowed = np.array([ALL_ROWS[i] for i in g.permutation(len(ALL_ROWS))[:4]])
+    return allowed[g.integers(0, 4, size=rc["N"])].tolist(), None
 
 
 def make_state(case):
@@ -123,14 +160,41 @@ def snapshot(obj):
 
 
 # ----------------------------------------------------------------------------- instrumented fit
-def run_fit(case):
-    """Real fit with recording wrappers.  Returns (log, data_obj, bases_obj, snapshots_before, error)."""
+def refill(obj, rows_or_bases):
+    """Overwrite a caller-side container IN PLACE (same object identity) with new content of the same shape."""
+    import torch
+    if isinstance(obj, torch.Tensor):
+        obj.copy_(torch.tensor(rows_or_bases, dtype=torch.double).to(obj.dtype))
+    elif isinstance(obj, np.ndarray):
+        obj[:] = np.array(rows_or_bases, dtype=obj.dtype) if obj.dtype.kind != "U" else np.array([list(b) for b in rows_or_bases])
+    else:
+        for i, r in enumerate(rows_or_bases):
+            obj[i][:] = [float(x) for x in r]
+
+
+def run_fit(case, session=None, reuse="other"):
+    """Real fit with recording wrappers.  Returns (log, data_obj, bases_obj, snapshots_before, error, session).
+    With a session the SAME state is trained again; reuse says which caller-side objects are the same objects
+    as in the previous call, refilled in place: same_both / same_data / same_bases / other."""
     import torch
     from qucumber.callbacks import CallbackBase
-    torch.manual_seed(case["tseed"])
-    state = make_state(case)
-    data_obj = make_data_object(case)
-    bases_obj = None if case["bases"] is None else np.array([list(b) for b in case["bases"]])
+    if session is None:
+        torch.manual_seed(case["tseed"])
+        session = {"state": make_state(case), "data_obj": None, "bases_obj": None}
+    state = session["state"]
+    if session["data_obj"] is not None and reuse in ("same_both", "same_data"):
+        data_obj = session["data_obj"]
+        refill(data_obj, case["rows"])
+    else:
+        data_obj = make_data_object(case)
+    if case["bases"] is None:
+        bases_obj = None
+    elif session["bases_obj"] is not None and reuse in ("same_both", "same_bases"):
+        bases_obj = session["bases_obj"]
+        refill(bases_obj, case["bases"])
+    else:
+        bases_obj = np.array([list(b) for b in case["bases"]])
+    session["data_obj"], session["bases_obj"] = data_obj, bases_obj
     before = (snapshot(data_obj), None if bases_obj is None else snapshot(bases_obj))
     log = []
 
@@ -154,6 +218,9 @@ def run_fit(case):
             return None
         return ["".join(r) for r in np.asarray(b).tolist()]
 
+    cur_starts = [None]          # chain starts observed inside the compute_batch_gradients call in progress
+    depth = [0]
+
     def rec_cbg(*a, **kw):
         # the arguments are read BY NAME (samples_batch / neg_batch / bases_batch), whether the caller
         # passes them positionally or by keyword
@@ -175,10 +242,53 @@ def run_fit(case):
             bb = extra_pos[0]
         else:
             bb = kw.get("bases_batch", a[3] if len(a) > 3 else None)
-        log.append(("batch", [norm(samples), norm(neg), norm(bb)]))
-        return orig_cbg(*a, **kw)
+        starts = []
+        log.append(("batch", [norm(samples), norm(neg), norm(bb)], starts))
+        if case.get("stub_grad"):                               # large default-batch runs: skip the gradient arithmetic
+            return [torch.zeros(getattr(state, net).num_pars, dtype=torch.double) for net in state.networks]
+        cur_starts[0] = starts
+        try:
+            return orig_cbg(*a, **kw)
+        finally:
+            cur_starts[0] = None
 
     state.compute_batch_gradients = rec_cbg
+
+    # the actual chain start: first entry into the amplitude RBM's sampler inside a compute_batch_gradients call
+    rbm = state.rbm_am
+    wrapped = []
+
+    def wrap_sampler(name, argname):
+        orig = getattr(rbm, name, None)
+        if orig is None:
+            return
+        try:
+            ssig = inspect.signature(orig)
+        except (TypeError, ValueError):
+            return
+
+        def w(*a, **kw):
+            st = cur_starts[0]
+            if st is not None and depth[0] == 0 and not st:
+                try:
+                    v = ssig.bind(*a, **kw).arguments.get(argname)
+                except TypeError:
+                    v = None
+                if isinstance(v, torch.Tensor):
+                    v = v.detach().clone()
+                    st.append((v.unsqueeze(0) if v.dim() == 1 else v).tolist())
+            depth[0] += 1
+            try:
+                return orig(*a, **kw)
+            finally:
+                depth[0] -= 1
+
+        rbm.__dict__[name] = w
+        wrapped.append(name)
+
+    wrap_sampler("gibbs_steps", "initial_state")
+    wrap_sampler("sample_h_given_v", "v")
+
     orig_perm, orig_int = torch.randperm, torch.randint
 
     def rec_perm(*a, **k):
@@ -198,7 +308,7 @@ def run_fit(case):
     torch.randperm, torch.randint = rec_perm, rec_int
     err = None
     try:
-        kw = dict(epochs=case["epochs"], neg_batch_size=case["neg_arg"], k=1, lr=1e-6, progbar=False, callbacks=[Marks()])
+        kw = dict(epochs=case["epochs"], neg_batch_size=case["neg_arg"], k=case.get("k", 1), lr=1e-6, progbar=False, callbacks=[Marks()])
         if not case.get("pos_default"):
             kw["pos_batch_size"] = case["pos_bs"]               # else: the documented default (100)
         if case["neg_arg"] is None and case.get("neg_omitted"):
@@ -210,7 +320,10 @@ def run_fit(case):
         err = e
     finally:
         torch.randperm, torch.randint = orig_perm, orig_int
-    return log, data_obj, bases_obj, before, err
+        state.__dict__.pop("compute_batch_gradients", None)    # the state may be trained again
+        for name in wrapped:
+            rbm.__dict__.pop(name, None)
+    return log, data_obj, bases_obj, before, err, session
 
 
 def split_epochs(log, failed=False):
@@ -233,7 +346,7 @@ def split_epochs(log, failed=False):
                 epochs.append(cur)
             if not cur["batches"]:
                 cur["perms"], cur["ints"], pend_p, pend_i = pend_p, pend_i, [], []
-            cur["batches"].append(ev[1])
+            cur["batches"].append(ev[1] + [ev[2]])             # [samples, neg, bases, chain starts]
         elif ev[0] == "epoch_end":
             cur = None
     if failed and (pend_p or pend_i):                          # raised before the first batch of an epoch
@@ -249,36 +362,55 @@ def codes(bases):
 
 
 # ----------------------------------------------------------------------------- one case
-def one_case(ctx, case, correspondence=True):
-    rows = [tuple(r) for r in case["rows"]]
-    bases = case["bases"]
+def one_case(ctx, case, correspondence=True, session=None, reuse="other", first=None):
+    """One fit run (optionally the second one on the state of `session`) judged by the oracle and compared
+    with the model.  Returns the session so that the same state / objects can be trained again."""
+    rows_l, bases = case_rows(case)
+    full = dict(case, rows=rows_l, bases=bases)
+    rows = [tuple(r) for r in rows_l]
     N, pos_bs = case["N"], case["pos_bs"]
+    # the record written into replay files: everything needed to re-run (rows come from the recipe if large)
+    rcase = dict(case)
+    if first is not None:
+        rcase = dict(rcase, history_first=first, reuse=reuse)
+    large = "recipe" in case
+    correspondence = correspondence and N <= 50
     neg_eff = case["neg_arg"] if case["neg_arg"] else pos_bs
     mirror = bases is None and neg_eff == pos_bs
     nb = -(-N // pos_bs)
     distinct = len(set(zip(rows, bases)) if bases else set(rows))
     nontriv = N >= 3 and nb >= 2 and distinct >= 2 and distinct < N
-    ctx.case({k: case.get(k) for k in ("kind", "N", "pos_bs", "neg_arg", "form", "rows", "bases", "tseed", "pos_default", "neg_omitted")}, nontrivial=nontriv)
+    desc = {k: case.get(k) for k in ("kind", "N", "pos_bs", "neg_arg", "form", "tseed", "pos_default", "neg_omitted", "k", "recipe")}
+    if not large:
+        desc.update(rows=case["rows"], bases=case["bases"])
+    if first is not None:
+        desc.update(second_fit_on_same_state=reuse, first_tseed=first.get("tseed"))
+    ctx.case(desc, nontrivial=nontriv)
     ctx.count("kind:" + case["kind"]); ctx.count("neg:" + case["negmode"]); ctx.count("form:" + case["form"])
     ctx.count("shape:" + ("N<b" if N < pos_bs else "N=m*b" if N % pos_bs == 0 else "N=m*b+r"))
+    ctx.count("k:%d" % case.get("k", 1))
+    if large:
+        ctx.count("large:N=%d" % N)
+    if first is not None:
+        ctx.count("second_fit:" + reuse)
     if distinct < N:
         ctx.count("has_duplicate_rows")
     if N == 1 and bases is not None:
         ctx.count("single_row_with_bases")
 
-    log, data_obj, bases_obj, before, err = run_fit(case)
+    log, data_obj, bases_obj, before, err, session = run_fit(full, session, reuse)
     epochs = split_epochs(log, failed=err is not None)
     if err is not None:
         # the property says training runs on every N >= 1 (incl. a single row with bases): an exception
         # is a failing input
-        ctx.require("fit raised " + type(err).__name__, False, case, repr(err)[:300])
+        ctx.require("fit raised " + type(err).__name__, False, rcase, repr(err)[:300])
         if correspondence:
-            correspond(ctx, case, epochs, failed_last=True)
-        return
+            correspond(ctx, full, epochs, True, rcase)
+        return session
 
     # ---- oracle: the property relation on what the implementation did
     # how many epochs a run has is C12's subject; here only: training happened, and every epoch seen is checked
-    ctx.require("training ran at least one epoch", len(epochs) >= 1, case, "no epoch observed")
+    ctx.require("training ran at least one epoch", len(epochs) >= 1, rcase, "no epoch observed")
     ctx.count("epochs_seen==requested" if len(epochs) == case["epochs"] else "epochs_seen!=requested")
     want_rows = Counter(rows)
     want_pairs = Counter(zip(rows, bases)) if bases else None
@@ -290,35 +422,48 @@ def one_case(ctx, case, correspondence=True):
         neg = [[tuple(r) for r in b[1]] for b in bl]
         bb = [b[2] for b in bl]
         got_rows = Counter(r for p in pos for r in p)
-        ctx.require("every data row is in exactly one positive batch", got_rows == want_rows, case,
+        ctx.require("every data row is in exactly one positive batch", got_rows == want_rows, rcase,
                     tag + "positive rows %r vs data %r" % (sorted(got_rows.items()), sorted(want_rows.items())))
         if bases is not None:
             shapes_ok = all(x is not None and len(x) == len(p) for x, p in zip(bb, pos))
-            ctx.require("bases batch has one basis row per sample row", shapes_ok, case, tag + repr([(len(p), None if x is None else len(x)) for p, x in zip(pos, bb)]))
+            ctx.require("bases batch has one basis row per sample row", shapes_ok, rcase, tag + repr([(len(p), None if x is None else len(x)) for p, x in zip(pos, bb)]))
             if shapes_ok:
                 got_pairs = Counter((r, s) for p, x in zip(pos, bb) for r, s in zip(p, x))
-                ctx.require("every row keeps its own basis row", got_pairs == want_pairs, case,
+                ctx.require("every row keeps its own basis row", got_pairs == want_pairs, rcase,
                             tag + "pairs %r vs inputs %r" % (sorted(got_pairs.items()), sorted(want_pairs.items())))
-        ctx.require("number of batches == ceil(N / batch size)", len(bl) == nb, case, tag + "%d batches, expected %d" % (len(bl), nb))
+        ctx.require("number of batches == ceil(N / batch size)", len(bl) == nb, rcase, tag + "%d batches, expected %d" % (len(bl), nb))
         sizes = [len(p) for p in pos]
         if sizes:
             last = N - pos_bs * (nb - 1)
             ok = all(s == pos_bs for s in sizes[:-1]) and (len(sizes) != nb or sizes[-1] == last) and 1 <= sizes[-1] <= pos_bs
-            ctx.require("batches have the requested size except possibly the last", ok, case, tag + "sizes %r (N=%d, b=%d)" % (sizes, N, pos_bs))
+            ctx.require("batches have the requested size except possibly the last", ok, rcase, tag + "sizes %r (N=%d, b=%d)" % (sizes, N, pos_bs))
         src = zrows if bases is not None else set(rows)
         bad = [r for q in neg for r in q if r not in src]
         ctx.require("negative rows are rows of the training data" + (" measured in the reference basis" if bases is not None else ""),
-                    not bad, case, tag + "foreign negative rows %r" % bad[:4])
+                    not bad, rcase, tag + "foreign negative rows %r" % bad[:4])
         nsz = [len(q) for q in neg]
         ok = all(s == neg_eff or (mirror and s == len(p)) for s, p in zip(nsz, pos))
-        ctx.require("negative batches have neg_batch_size rows", ok, case, tag + "negative sizes %r, neg_batch_size %d" % (nsz, neg_eff))
+        ctx.require("negative batches have neg_batch_size rows", ok, rcase, tag + "negative sizes %r, neg_batch_size %d" % (nsz, neg_eff))
+        # the chains themselves: where a chain start is observable (k >= 1) it must be the recorded negative batch, by value
+        for bi, b in enumerate(bl):
+            st = b[3]
+            if not st or case.get("k", 1) < 1:
+                ctx.count("chain_start:unobserved")
+                continue
+            ctx.count("chain_start:observed")
+            got_st = Counter(tuple(r) for r in st[0])
+            ctx.require("negative-phase chains start from the negative batch (rows of the training data"
+                        + (" measured in the reference basis)" if bases is not None else ")"),
+                        got_st == Counter(neg[bi]), rcase,
+                        tag + "batch %d: chains started from %r, negative batch %r" % (bi, sorted(got_st.items())[:6], sorted(Counter(neg[bi]).items())[:6]))
         ctx.traces += 1
     after = (snapshot(data_obj), None if bases_obj is None else snapshot(bases_obj))
-    ctx.require("caller's data object unchanged by fit", after[0] == before[0], case, "form " + case["form"])
-    ctx.require("caller's bases object unchanged by fit", after[1] == before[1], case)
+    ctx.require("caller's data object unchanged by fit", after[0] == before[0], rcase, "form " + case["form"])
+    ctx.require("caller's bases object unchanged by fit", after[1] == before[1], rcase)
 
     if correspondence:
-        correspond(ctx, case, epochs, failed_last=False)
+        correspond(ctx, full, epochs, False, rcase)
+    return session
 
 
 def choose_perm(e, rows, bases, N):
@@ -326,15 +471,16 @@ def choose_perm(e, rows, bases, N):
     rows; else one reconstructed from the recorded batches (duplicates are interchangeable for the model);
     else any captured one (the comparison will then show the difference)."""
     flat_pos = [tuple(r) for b in e["batches"] for r in b[0]]
-    for p in e["perms"]:
-        if sorted(p[2]) == list(range(N)) and [rows[i] for i in p[2]] == flat_pos:
+    flat_bb = None
+    if bases is not None and all(b[2] is not None for b in e["batches"]):
+        flat_bb = [x for b in e["batches"] for x in b[2]]
+        if len(flat_bb) != N:
+            flat_bb = None
+    for p in e["perms"]:      # (a random call made for another purpose may sit in the window: it must explain rows AND bases)
+        if sorted(p[2]) == list(range(N)) and [rows[i] for i in p[2]] == flat_pos and \
+                (flat_bb is None or [bases[i] for i in p[2]] == flat_bb):
             return p[2], "captured"
     if len(flat_pos) == N:
-        flat_bb = None
-        if bases is not None and all(b[2] is not None for b in e["batches"]):
-            flat_bb = [x for b in e["batches"] for x in b[2]]
-            if len(flat_bb) != N:
-                flat_bb = None
         used, perm = set(), []
         for j, r in enumerate(flat_pos):
             cand = [i for i in range(N) if i not in used and rows[i] == r and (flat_bb is None or bases[i] == flat_bb[j])]
@@ -368,7 +514,7 @@ def choose_negidx(e, src, k):
     return [0] * k, "none"
 
 
-def correspond(ctx, case, epochs, failed_last):
+def correspond(ctx, case, epochs, failed_last, rcase=None):
     """Correspondence with the Coq model, epoch by epoch: the recorded (samples, neg, bases) batches must be
     exactly the model's batches for the random outcomes of that epoch.  Only the PUBLIC observable (the
     arguments of compute_batch_gradients) is compared; how and when the implementation draws its random
@@ -376,6 +522,7 @@ def correspond(ctx, case, epochs, failed_last):
     raised in its last epoch the model must report a failure (None) for that epoch."""
     rows = [tuple(r) for r in case["rows"]]
     bases, N, pos_bs = case["bases"], case["N"], case["pos_bs"]
+    rcase = case if rcase is None else rcase
     m = ctx.get_model()
     data_w = [list(r) for r in rows]
     bases_w = [] if bases is None else [codes(bases)]
@@ -393,7 +540,7 @@ def correspond(ctx, case, epochs, failed_last):
         ctx.count("perm_source:" + how)
         if perm is None:
             if not last_failed:
-                ctx.agree_exact(tag + "positive batches are data[perm] for a permutation perm", False, True, case)
+                ctx.agree_exact(tag + "positive batches are data[perm] for a permutation perm", False, True, rcase)
             continue
         if req:
             k = int(req[0][1])
@@ -416,13 +563,13 @@ def correspond(ctx, case, epochs, failed_last):
             if ctx._c07_seen % 173 == 1 and len(keep) < 24:
                 keep.append((pos_bs, case["neg_arg"], rows, bases, perm, negidx))
         if last_failed:
-            ctx.agree_exact(tag + "implementation raised <-> model reports an indexing failure", [], mb, case)
+            ctx.agree_exact(tag + "implementation raised <-> model reports an indexing failure", [], mb, rcase)
             continue
         impl = []
         for b in e["batches"]:
             impl.append([[[float(x) for x in r] for r in b[0]], [[float(x) for x in r] for r in b[1]],
                          [] if b[2] is None else [[[float(c) for c in row] for row in codes(b[2])]]])
-        ctx.agree_exact(tag + "batches == model batches", [impl], mb, case)
+        ctx.agree_exact(tag + "batches == model batches", [impl], mb, rcase)
 
 
 # ----------------------------------------------------------------------------- extract_refbasis_samples
@@ -473,7 +620,7 @@ def no_refbasis_rows_case(ctx):
     case = {"kind": "complex", "N": 3, "pos_bs": 2, "negmode": "default", "neg_arg": None, "form": "tensor_double", "epochs": 1,
             "rows": [[0.0, 1.0, 1.0], [1.0, 0.0, 0.0], [1.0, 1.0, 0.0]], "bases": ["XZZ", "ZYZ", "ZZX"], "nh": 1, "tseed": 1}
     ctx.case({"special": "no all-Z row"}, nontrivial=False)
-    log, _, _, _, err = run_fit(case)
+    log, _, _, _, err, _ = run_fit(case)
     req = m.call("c07_randint_request", 2, [], case["rows"], [codes(case["bases"])])
     # informational only: the property does not say what happens when there is no reference-basis row
     model_empty = bool(req and req[0][0] == 0 and req[0][1] > 0)
@@ -528,9 +675,49 @@ def coq_crosscheck(ctx):
 FORMS = ["tensor_double", "numpy", "list", "tensor_float", "numpy_int", "list", "tensor_long", "numpy", "tensor_double"]
 
 
+REUSE_MODES = ("same_both", "other", "same_data", "same_bases")
+
+
+def history_case(ctx, kind, N, pos_bs, form, reuse, epochs, negmode="default"):
+    """fit called twice on ONE state.  reuse: which caller-side objects of the second call are the same
+    objects as in the first call, refilled in place with the new content."""
+    if kind == "positive" and reuse in ("same_data", "same_bases"):
+        reuse = "same_both"
+    c1 = gen_case(ctx, kind, N, pos_bs, negmode, form, epochs)
+    N2 = N if reuse != "other" else max(1, N + int(ctx.rng.integers(-2, 3)))
+    pos2 = pos_bs if ctx.rng.random() < 0.5 else int(ctx.rng.integers(1, N2 + 2))
+    for _ in range(8):
+        c2 = gen_case(ctx, kind, N2, pos2, str(ctx.rng.choice(["default", "equal", "diff"])), form, epochs)
+        if c2["rows"] != c1["rows"] or c2["bases"] != c1["bases"]:
+            break
+    c2["nh"] = c1["nh"]
+    session = one_case(ctx, c1)
+    one_case(ctx, c2, session=session, reuse=reuse, first=c1)
+
+
+def fixed_first(ctx, epochs):
+    """The regimes that always run first: two fits on one state, and large data sets."""
+    plan = [("positive", "numpy", "same_both"), ("complex", "tensor_double", "same_both"), ("dm", "list", "same_data"),
+            ("complex", "numpy", "same_bases"), ("positive", "tensor_float", "same_both"), ("positive", "list", "other"),
+            ("dm", "numpy", "same_both"), ("complex", "numpy_int", "other")]
+    for i, (kind, form, reuse) in enumerate(plan):
+        history_case(ctx, kind, 4 + i % 3, 2 + i % 2, form, reuse, epochs)
+    large = [large_case(ctx, "complex", 150001, 4096, None, "numpy"),
+             large_case(ctx, "complex", 150001, None, None, "tensor_double", pos_default=True, stub=True),
+             large_case(ctx, "positive", 20011, 4096, 1000, "tensor_float")]
+    if ctx.thorough:
+        large += [large_case(ctx, "dm", 20011, 4096, None, "numpy"),
+                  large_case(ctx, "positive", 150001, None, None, "numpy", pos_default=True, stub=True),
+                  large_case(ctx, "complex", 40000, 10000, 777, "numpy_int"),
+                  large_case(ctx, "dm", 150001, 4096, 64, "tensor_double", stub=True)]
+    for c in large:
+        one_case(ctx, c)
+
+
 def run(ctx):
     maxN = 9 if ctx.thorough else 7
     epochs = 3 if ctx.thorough else 2
+    fixed_first(ctx, epochs)
     cnt = 0
     for rnd in range(2 if ctx.thorough else 1):                  # thorough: two independent draws of the data
         for N in range(1, maxN + 1):
@@ -546,6 +733,11 @@ def run(ctx):
                         for form in forms:
                             case = gen_case(ctx, kind, N, pos_bs, negmode, form, epochs)
                             one_case(ctx, case)
+            # histories in the random stream: one two-fit history per kind and N
+            for kind in ("positive", "complex", "dm"):
+                history_case(ctx, kind, N, int(ctx.rng.integers(1, N + 2)), FORMS[cnt % len(FORMS)],
+                             REUSE_MODES[cnt % len(REUSE_MODES)], epochs, negmode=str(ctx.rng.choice(["default", "diff"])))
+                cnt += 1
     # documented defaults: pos_batch_size omitted (100 > N: one batch), neg_batch_size omitted
     for N in range(1, maxN + 1):
         for kind in ("positive", "complex", "dm"):
@@ -566,6 +758,9 @@ def search(ctx, broken, budget):
     """Wider oracle-only sweep when the proof or the correspondence broke: larger N, more epochs."""
     t0 = time.time()
     n0 = len(ctx.failures)
+    fixed_first(ctx, 2)
+    if len(ctx.failures) > n0:
+        return ctx.failures[n0]
     for N in list(range(1, 13)):
         for pos_bs in range(1, N + 2):
             for kind in ("positive", "complex", "dm"):
@@ -582,8 +777,15 @@ def search(ctx, broken, budget):
 
 def replay(ctx, rec):
     case = rec.get("failing", {}).get("case", {})
-    if case.get("call") == "extract_refbasis_samples" or "rows" not in case:
+    if case.get("call") == "extract_refbasis_samples" or not ("rows" in case or "recipe" in case):
         print("replay: re-running the generated cases")
         return run(ctx)
-    print("replay of fit run:", {k: case.get(k) for k in ("kind", "N", "pos_bs", "neg_arg", "form", "tseed")})
-    one_case(ctx, case)
+    case = dict(case)
+    first, reuse = case.pop("history_first", None), case.pop("reuse", "other")
+    print("replay of fit run:", {k: case.get(k) for k in ("kind", "N", "pos_bs", "neg_arg", "form", "tseed")},
+          "" if first is None else "as second fit on one state (%s)" % reuse)
+    if first is None:
+        one_case(ctx, case)
+    else:
+        session = one_case(ctx, first)
+        one_case(ctx, case, session=session, reuse=reuse, first=first)
